@@ -140,3 +140,33 @@ def exchange (toEOF : Bool) (qid : Bytes) (body : Go.Stream) : Res :=
   if b.length < headerLen then .tooSmall else .reply (qid ++ b.drop 2)
 
 end Model.C02.Doh
+
+/-! ## The layer between the transports and the socket (pkg/upstream: the event observer's `connWrapper`)
+
+`io.Reader` allows a `Read` to return data together with an error (`crypto/tls` does when a close_notify alert
+sits right behind the data): the stream readers (`io.ReadFull` in `dnsutils.ReadRawMsgFromTCP`) use the bytes first.
+A layer in between keeps that only if its `Read` hands on what it got. -/
+namespace Model.C02.Wrap
+
+/-- What one `Read` call returns: the bytes handed out and whether an error (EOF, reset) came with them. -/
+structure Rd where
+  data : Bytes
+  err : Bool
+  deriving DecidableEq, Repr
+
+/-- The `Read` of the layer. `keeps = true` (regenerated fact `c02ObserverLayerKeepsRead`): the wrapped connection's
+own `Read` (embedded `net.Conn`); `false`: a `Read` that answers an error with `(0, err)`. -/
+def wrap (keeps : Bool) (r : Rd) : Rd := if r.err && !keeps then ⟨[], true⟩ else r
+
+/-- `io.ReadFull` with `need` bytes still missing over the results of the successive `Read` calls (a call is offered
+at most `need` bytes): `some` the bytes once they are there - an error that comes with the last missing bytes is
+dropped (`io.ReadAtLeast`: `if n >= min { err = nil }`) -, `none` if an error or the end of the script comes first. -/
+def readFull : List Rd → Nat → Bytes → Option Bytes
+  | [], need, acc => if need = 0 then some acc else none
+  | r :: rs, need, acc =>
+    if need = 0 then some acc
+    else if need ≤ r.data.length then some (acc ++ r.data.take need)
+    else if r.err then none
+    else readFull rs (need - r.data.length) (acc ++ r.data)
+
+end Model.C02.Wrap
